@@ -62,7 +62,17 @@ def save_and_reload(r, draw):
     r2 = rp.Runner(draw, numeric=False, opt=opt2, params=params2)
     r2.t = r.t
     r2.hy = copy.deepcopy(r.hy)
-    return r2, sd
+    return r2, sd2
+
+
+def sd_hash(sd):
+    """hash of every tensor held by a loaded checkpoint object (loading must copy, never adopt, its tensors)"""
+    out = {}
+    for pk, flat in sd["state"].items():
+        for k, v in flat.items():
+            if isinstance(v, torch.Tensor):
+                out[(pk, k)] = realopt.tensor_hash(v)
+    return out
 
 
 def resume_task(args):
@@ -101,6 +111,8 @@ def resume_task(args):
                 diff = sorted(x for x in snaps[k - 1] if snaps[k - 1][x] != full_snapshot(b2).get(x))
                 mm.append((k, f"resume.state_after_load.k{k}", "bitwise equal to the saved state", f"differs in {diff[:4]}"))
                 continue
+            h0 = sd_hash(sd)
+            broke = False
             for i, ev in enumerate(beh[k:], start=k):
                 if ev["ev"] == "SetHyper":
                     b2.do_sethyper(ev)
@@ -110,7 +122,12 @@ def resume_task(args):
                 if s != snaps[i]:
                     diff = sorted(x for x in snaps[i] if snaps[i][x] != s.get(x))
                     mm.append((i + 1, f"resume.trajectory.k{k}", "bitwise equal to the uninterrupted run", f"differs in {diff[:4]}"))
+                    broke = True
                     break
+            if not broke and sd_hash(sd) != h0:
+                changed = sorted(str(x) for x in h0 if h0[x] != sd_hash(sd).get(x))
+                mm.append((len(beh), f"resume.checkpoint_mutated.k{k}", "the loaded checkpoint object is left untouched by later steps",
+                           f"{len(changed)} tensors changed, e.g. {changed[:2]}"))
         return mm, None, None
     except Exception:
         import traceback
@@ -219,7 +236,17 @@ def run(ctx):
     # R: real save / load at every stop point
     tasks = sp.gen_tasks(ctx, rng, 12 if quick else 80, 6 if quick else 20, make_groups, 6, (), ("mom", "b1", "wd", "lr"))
     rtasks = []
-    for d, beh, _ in tasks:
+    for i, (d, beh, _) in enumerate(tasks):
+        if i % 4 == 1:
+            d = dict(d, dtype="float32", pdtype="float64")       # factor matrices in a higher precision than the parameters
+        elif i % 4 == 2:
+            d = dict(d, dtype="bfloat16", pdtype="float32")
+        elif i % 4 == 3:
+            d = dict(d, dtype="float32", pdtype="float32")
+        if d["dtype"] != "float64":
+            for g in d["groups"]:
+                if g.get("method") in ("newton", "higher"):
+                    g["method"] = "eigen"
         ks = list(range(0, len(beh) + 1)) if not quick else sorted(set([0, len(beh)] + rng.sample(range(len(beh) + 1), min(3, len(beh) + 1))))
         rtasks.append((d, beh, ks))
     res = sp.pool_map(resume_task, rtasks)
@@ -236,7 +263,7 @@ def run(ctx):
         t["k"] = rng.randrange(0, 6)
         t["comm_params"] = rng.random() < 0.3
         dtasks.append(t)
-    for t, r in zip(dtasks, sp.pool_map(dc.run_ddp_resume_task, dtasks)):
+    for t, r in zip(dtasks, sp.sim_map(dc.run_ddp_resume_task, dtasks, lambda r: bool(r.get("crash") or r.get("verdict") or any((r.get("errors") or {}).values()) or any((r.get("bad") or {}).values())))):
         ctx.add("evaluations")
         if "crash" in r:
             raise tlc.TLCMachineryError("simulated-rank worker crashed:\n" + r["crash"])
